@@ -21,6 +21,7 @@ from vlib import core
 from vlib.core import sh2
 
 WRAP = "-Wl,--wrap=malloc,--wrap=free,--wrap=calloc,--wrap=realloc"
+WRAP_FI = WRAP + " -rdynamic -ldl"     # harness/c14_fi.c attributes allocation calls to functions (dladdr)
 WRAP_MM = WRAP + ",--wrap=jpeg_open_backing_store"      # harness/c14.c can supply a backing store
 ENV = {"ASAN_OPTIONS": "detect_leaks=0:allocator_may_return_null=1:max_allocation_size_mb=4096", "UBSAN_OPTIONS": "print_stacktrace=1"}
 MAXC = 1000000000
@@ -555,7 +556,7 @@ def part_b(ctx, flavours):
     os.makedirs(scratch, exist_ok=True)
     res = {}
     for fl in flavours:
-        exe = ctx.cc("c14_fi", ["c14_fi.c"], fl, libs=("turbojpeg",), extra=WRAP)
+        exe = ctx.cc("c14_fi", ["c14_fi.c"], fl, libs=("turbojpeg",), extra=WRAP_FI)
         d = os.path.join(scratch, fl)
         os.makedirs(d, exist_ok=True)
         res[fl] = (exe, d)
@@ -599,7 +600,12 @@ def fi_run(exe, d, lines):
     start = 0
     while start < len(lines):
         rc, out, err = sh2([exe, d], input=("\n".join(lines[start:]) + "\n").encode(), timeout=1800, env=ENV)
-        got = [l for l in out.decode("utf-8", "replace").split("\n") if l.startswith("result ") or l.startswith("limit ")]
+        allout = out.decode("utf-8", "replace").split("\n")
+        for l in allout:
+            if l.startswith("sites "):
+                f = l.split()
+                SITES[f[1]] = {kv.split("=")[0]: int(kv.split("=")[1]) for kv in f[2:]}
+        got = [l for l in allout if l.startswith("result ") or l.startswith("limit ")]
         n = min(len(got), len(lines) - start)
         for i in range(n):
             outs[start + i] = got[i]
@@ -659,6 +665,46 @@ def destbuf_script(name):
 
 
 XF = {}
+SITES = {}
+
+
+def tjalloc_tie(ctx, drv, fl):
+    """generated allocation programs (gen/GenTjAlloc.v) vs the implementation: the number of malloc calls made directly by each
+    modelled TurboJPEG function in the failure-free run of every scenario (attributed by return address) must be a multiple
+    (number of calls) of the count the program predicts for the scenario's component count"""
+    if not drv:
+        return
+    names = re.findall(r"^\(\* (\w+) \([\w.\-]+\): .*acquisition sites \*\)$", open(os.path.join(core.COQ, "gen", "GenTjAlloc.v")).read(), re.M)
+    rc, out, err = sh2([drv], input=b"tjalloc\n", timeout=120)
+    m = re.match(r"tjalloc (.*)", out.decode())
+    if not m or len(m.group(1).split()) != len(names):
+        ctx.broken_tie("correspondence:tjalloc", "driver does not list the generated programs: %s" % out.decode()[:200])
+        return
+    pred = {}
+    for nm, ent in zip(names, m.group(1).split()):
+        q = [int(x) for x in ent.split(":")]
+        pred[nm] = {1: q[1], 3: q[2], 4: q[3]}
+    bad = checked = 0
+    for scn, st in SITES.items():
+        nc = 1 if "gray" in scn else 4 if "cmyk" in scn else 3
+        for fn, n in st.items():
+            cands = [nm for nm in pred if fn == nm or (fn.startswith(nm) and fn[len(nm):] in ("8", "12", "16"))]
+            if not cands:
+                continue
+            p = pred[cands[0]]
+            exp = p[nc]
+            checked += 1
+            ok = exp > 0 and n % exp == 0 and n // exp <= 4
+            if not ok and "gray" not in scn and "cmyk" not in scn:
+                ok = any(e > 0 and n % e == 0 and n // e <= 4 for e in p.values())     # other component counts inside the scenario
+            if not ok:
+                bad += 1
+                if bad <= 3:
+                    ctx.broken_tie("correspondence:tjalloc:" + fl, "%s made %d direct malloc calls in scenario %s, the generated program predicts %d per call (nc=%d)" % (
+                        fn, n, scn, exp, nc))
+    ctx.cov["tjalloc_site_counts_checked"] = ctx.cov.get("tjalloc_site_counts_checked", 0) + checked
+    ctx.cov["tjalloc_disagreements"] = ctx.cov.get("tjalloc_disagreements", 0) + bad
+    ctx.cov["traces_validated_against_impl"] += checked
 
 
 def destbuf_tie(ctx, drv, fl, names, outs):
@@ -715,6 +761,7 @@ def exec_part_b(ctx, built, drv=None):
             continue
         info, counts, ninit = su
         destbuf_tie(ctx, drv, fl, *ctx._c14_nofail)
+        tjalloc_tie(ctx, drv, fl)
         rng = ctx.rng.fork()
         lines = []
         for nm, n in counts.items():
@@ -956,6 +1003,7 @@ def do_replay(ctx, drv):
 
 
 def run(ctx):
+    ctx.regen(["TjAlloc"])
     if not ctx.regen(["MemConst"]):
         # a stale .vo of the generated facts must not satisfy the proof obligations
         for ext in (".vo", ".vos", ".vok", ".glob"):
